@@ -125,10 +125,9 @@ structure Rel (c : CW) (s : WS) : Prop where
   marked : ∀ o, (o ∈ s.marked ∧ (s.alive o).isSome = true) ↔
     ∃ h ∈ c.w.marked, c.w.isValid h = true ∧ ordOf c.issued h = some o
   markedLt : ∀ o ∈ s.marked, o < s.ents.length
+  markedNodup : s.marked.Nodup
 
 /-! ## invariants -/
-
-def ArchsClosed (w : WM) : Prop := ∀ a ∈ w.archs, ∀ x ∈ a.mask, ∀ d ∈ depsOf w.deps x, d ∈ a.mask
 
 /-- a descriptor whose instances are all pooled under their type -/
 def SharedIn (pool : List (Nat × List (Nat × Nat))) (sh : Shared) : Prop :=
@@ -155,7 +154,7 @@ structure Inv (c : CW) : Prop where
   live : LiveInv c.w
   pool : PoolInv c.w
   shared : SharedPooled c.w
-  closed : ArchsClosed c.w
+  closed : Mustache.Model.ArchsClosed c.w.deps c.w.archs
   depsB : DepsBounded c.w.deps
   locsCover : c.w.slots.length ≤ c.w.locs.length
   bufLe : c.w.buffers.length ≤ c.w.nthreads
@@ -164,10 +163,11 @@ structure Inv (c : CW) : Prop where
   bufKnown : ∀ b ∈ c.w.buffers, ∀ cmd ∈ b, Known c cmd.entity ∧ cmdOk c.w.pool cmd
   markedKnown : ∀ h ∈ c.w.marked, Known c h ∧ h ∉ createHandles c.w.buffers
   markedRange : ∀ h ∈ c.w.marked, HRange h
+  markedSorted : c.w.marked.Pairwise (fun a b => a.value < b.value)
 
 /-- range side conditions (DESIGN.md 3.2): fewer ids than the null id, no version wrapped -/
 structure Bounds (c : CW) : Prop where
-  inRange : c.w.slots.length ≤ 2^30 - 1
+  inRange : c.w.slots.length < 2^30 - 1
   noWrap : ∀ h ∈ c.issued, h.ver + 1 < 2^24
 
 /-! ## the contract of one operation -/
